@@ -422,7 +422,7 @@ func TestC16(t *testing.T) {
 			g := &genState{spec: spec, model: NewNode(), deadKids: map[string]bool{}}
 			g.keys = genKeyPool(rt, false, 6)
 			p.Ops = append(p.Ops, Op{Kind: "admission"})
-			n := p.Cfg.MaxPreMergerBatches + rapid.IntRange(1, 4).Draw(rt, "extra")
+			n := p.Cfg.MaxPreMergerBatches + rapid.IntRange(1, 5).Draw(rt, "extra")
 			for i := 0; i < n; i++ {
 				b := g.nextBatch(rt)
 				if batchIsNoop(b) {
